@@ -78,6 +78,7 @@ Inductive answer :=
 | AnsOk (ro gone : bool)       (* returned; if a SelectedMailbox came back: readonly / deleted *)
 | AnsIdent (name : bytes) (roles : list bytes)   (* authenticate / authorize returned an identity *)
 | AnsNo                        (* raised a ResponseError (tagged NO) *)
+| AnsNotFound                  (* raised MailboxNotFound (a ResponseError: tagged NO) *)
 | AnsTimeout                   (* raised TimeoutError *)
 | AnsCrash                     (* raised anything else *)
 | AnsMismatch.                 (* script backend only: not the call the implementation made *)
@@ -200,7 +201,7 @@ Section Step.
   (* how a raising backend call is answered *)
   Definition on_raise (v : view) (b : B) (a : answer) : res :=
     match a with
-    | AnsNo => raised v b NO WBackendNo
+    | AnsNo | AnsNotFound => raised v b NO WBackendNo
     | AnsTimeout => raised v b NO WTimeout
     | _ => crash v b
     end.
@@ -397,6 +398,7 @@ Section Step.
           if ro then ret v0 b OK WDone
           else match bk b (call "expunge_mailbox" [] []) with
                | (AnsOk _ _, b') => ret v0 b' OK WDone
+               | (AnsNotFound, b') => ret v0 b' OK WDone    (* suppress(MailboxNotFound) *)
                | (x, b') => on_raise v0 b' x
                end
       | _ => crash v b
@@ -500,7 +502,8 @@ Section Step.
     | Some (authc, secret, authz) =>
         match do_login_calls b authc secret authz with
         | (inl u, b') => (mk_conn (set_phase v0 (Authd u)) 0, b', mk_out OK WDone false 0)
-        | (inr AnsNo, b') => (mk_conn (set_phase v0 Closed) 0, b', mk_out NOTAG WGreetBye true 0)
+        | (inr AnsNo, b') | (inr AnsNotFound, b') =>
+            (mk_conn (set_phase v0 Closed) 0, b', mk_out NOTAG WGreetBye true 0)
         | (inr _, b') => (mk_conn (set_phase v0 Closed) 0, b', mk_out NOTAG WCrash false 0)
         end
     | None =>
